@@ -151,7 +151,8 @@ CHECKS = {
           "Deleter moves transfer the pool pointer. The compensating paths run only when the cache is exactly full/empty under "
           "contention, and a duplicated page is silent corruption. Exact conservation inside the pointer-arithmetic callbacks under "
           "interleavings is not decided. The queue re-size clause C01.R11 is evaluated on this component's queue instantiations (Q1)."
-          " Dependent clauses: the rules of the lower components (C01, C02) are re-evaluated on the function instances this component's own code reaches through resolved calls (or, where the lower object is shared with this component's clients, on every instance present) and reported as '<id>.D:<lower rule>' (DESIGN.md section 3, D1).",
+          " Dependent clauses: the rules of the lower components (C01, C02) are re-evaluated on the function instances this component's own code reaches through resolved calls (or, where the lower object is shared with this component's clients, on every instance present) and reported as '<id>.D:<lower rule>' (DESIGN.md section 3, D1)."
+          ' Also: BatchPageAllocator refills its thread-local buffer only behind an edge that implies the buffer is empty (R1i).',
   "note": "Trusted: clang 14 CFG; the bounded queue's compensating batch operations (C01) deliver each slot to exactly one callback.",
   "technique": "static analysis: role/sibling agreement of callbacks (resolved callees in lambda bodies), fall-off-end CFG rule, exactly-once counting, who-may-call pairing"},
  "C07": {
